@@ -252,7 +252,7 @@ def run(tier: str) -> int:
     boot.setup()
     chk = Check(PID, tier, "model_checking")
     if tier == "quick":
-        body(chk, mc_nodes=3, n_random=1200, deep=3, chains_w=[60, 400], chains_r=[40, 120])
+        body(chk, mc_nodes=3, n_random=1200, deep=3, chains_w=[60, 400, 1100], chains_r=[40, 120])
     else:
         body(chk, mc_nodes=3, n_random=8000, deep=4, chains_w=[500, 2000], chains_r=[150, 300])
     chk.cov["exhaustive"] = True
